@@ -651,6 +651,7 @@ def run(tier):
                     res.instance("C17.R4b", "%s: %s += %s at line %s" % (fn.name, cur, pp(sz), ln), ok, finding=f_)
     res.floor("C17.R4b", 3)
     res.stats["counter_write_sites"] = n_w
+    rule_R1w(res, prog)
     return res.finish()
 
 
@@ -786,3 +787,131 @@ def prng_failure_handled(fn, b, i, x, call):
         for s_ in cu.succs(fn, bid):
             stack.append((s_, frozenset(e.items())))
     return True, ""
+
+
+def rule_R1w(res, prog, prop=PROP, rid="C17.R1w"):
+    """The record sequence numbers are 64-bit (48-bit DTLS) counters: every increment of sec.seq / sec.remSeq / rsn (in
+    place, through a local alias or inside a helper that receives the counter) walks the whole array - the index starts
+    at size-1 and the loop runs while index >= 0.  A narrower increment wraps early: the same MAC sequence number /
+    AEAD nonce is used for two records (replay of the earlier one verifies)."""
+    import re
+    rid_ = rid
+    res.rule(rid_, "every increment of a record sequence counter ripples through all its bytes (index from size-1 down to 0)")
+    pe = ParamEffects(prog)
+    COUNTERS = {SEQ, REMSEQ, RSN}
+
+    def arr_size(t):
+        m = re.search(r"\[(\d+)\]", t or "")
+        return int(m.group(1)) if m else None
+    # helper functions that increment through a pointer parameter -> size from the counters passed at call sites
+    helper_size = {}
+
+    def aliases_of(fn):
+        """local pointers assigned (somewhere) from a counter field -> byte size of that counter"""
+        al = {}
+        for b, ln, nd in fn.nodes():
+            src = vid = None
+            if nd.get("k") == "decl" and "init" in nd:
+                vid, src = (nd.get("var") or {}).get("id"), nd["init"]
+            elif nd.get("k") == "bin" and nd["op"] == "=" and (strip(nd["l"]) or {}).get("k") == "var":
+                vid, src = strip(nd["l"]).get("id"), nd["r"]
+            if vid is None or src is None or field_of(src) not in COUNTERS:
+                continue
+            a = strip(src)
+            while a is not None and a.get("k") == "cast":
+                a = strip(a["e"])
+            sz = arr_size((a or {}).get("t"))
+            if sz:
+                al[vid] = sz
+        return al
+    for fn in prog.functions.values():
+        al_ = aliases_of(fn) if fn.blocks else {}
+        for b, ln, c in fn.calls():
+            if not c.get("fn"):
+                continue
+            t = prog.resolve_call(fn, c["fn"])
+            if t is None:
+                continue
+            for j, effs in pe.eff.get(t.qname, {}).items():
+                if ("inc" in effs or "store" in effs) and j < len(c.get("a", [])):
+                    a = strip(c["a"][j])
+                    while a is not None and a.get("k") == "cast":
+                        a = strip(a["e"])
+                    sz = None
+                    if field_of(c["a"][j]) in COUNTERS:
+                        sz = arr_size((a or {}).get("t"))
+                    elif a is not None and a.get("k") == "var" and a.get("id") in al_:
+                        sz = al_[a["id"]]
+                    if sz:
+                        helper_size.setdefault((t.qname, j), set()).add(sz)
+    n = 0
+    for fn in sorted(prog.functions.values(), key=lambda f: f.qname):
+        if not fn.blocks:
+            continue
+        pidx = {p.get("id"): i for i, p in enumerate(fn.params)}
+        alias = aliases_of(fn)
+        rd = None
+        for b in fn.blocks:
+            for i, ln, x in cu.block_exprs(b):
+                for nd in walk(x):
+                    tgt = None
+                    if nd.get("k") == "un" and nd["op"] in ("post++", "pre++", "++"):
+                        tgt = strip(nd["e"])
+                    elif nd.get("k") == "bin" and nd["op"] == "+=" and is_one(nd["r"]):
+                        tgt = strip(nd["l"])
+                    if tgt is None or tgt.get("k") != "idx":
+                        continue
+                    base = strip(tgt["b"])
+                    while base is not None and base.get("k") == "cast":
+                        base = strip(base["e"])
+                    size = None
+                    if field_of(base) in COUNTERS:
+                        size = arr_size((base or {}).get("t"))
+                    elif base is not None and base.get("k") == "var":
+                        if base.get("id") in alias:
+                            size = alias[base["id"]]
+                        elif base.get("id") in pidx and (fn.qname, pidx[base["id"]]) in helper_size:
+                            ss = helper_size[(fn.qname, pidx[base["id"]])]
+                            size = ss.pop() if len(ss) == 1 else None
+                            ss.add(size)
+                        else:
+                            continue
+                    else:
+                        continue
+                    if size is None:
+                        continue
+                    n += 1
+                    ix = strip(tgt["i"]) if "i" in tgt else None
+                    while ix is not None and ix.get("k") == "cast":
+                        ix = strip(ix["e"])
+                    ok, why = False, "index is not a loop variable"
+                    if ix is not None and ix.get("k") == "var" and "id" in ix:
+                        if rd is None:
+                            rd = cu.reaching_defs(fn)
+                        ds = cu.defs_at(fn, rd, b["id"], i, ix["id"])
+                        inits = [strip(d[3]) for d in ds if d[2] in ("decl", "assign")]
+                        ups = [d for d in ds if d[2] not in ("decl", "assign")]
+                        init_vals = set(e["v"] if (e is not None and e.get("k") == "int") else None for e in inits)
+                        # loop condition on the index variable
+                        conds = set()
+                        for b2 in fn.blocks:
+                            t2 = b2.get("term")
+                            if t2 is not None and "c" in t2:
+                                for (txt, tr, nd2) in cu._cond_atoms(t2["c"], True):
+                                    if txt in ("(%s >= 0)" % ix["n"], "(%s > -1)" % ix["n"], "(%s < %d)" % (ix["n"], size), "(%s <= %d)" % (ix["n"], size - 1)):
+                                        conds.add(txt)
+                        dec = any(m.get("k") == "un" and "--" in m["op"] and (strip(m["e"]) or {}).get("id") == ix["id"] for b2, l2, m in fn.nodes())
+                        inc = any(m.get("k") == "un" and "++" in m["op"] and (strip(m["e"]) or {}).get("id") == ix["id"] for b2, l2, m in fn.nodes())
+                        if dec and init_vals == {size - 1} and any(c.endswith(">= 0)") or c.endswith("> -1)") for c in conds):
+                            ok = True
+                        elif inc and init_vals == {0} and any("<" in c for c in conds):
+                            ok = True
+                        why = "index %s starts at %s, loop condition(s) %s, counter has %d bytes" % (ix["n"], sorted(map(str, init_vals)), sorted(conds) or "none on the index", size)
+                    f_ = None
+                    if not ok:
+                        f_ = Finding(prop, rid_, fn.name, "sequence counter incremented over fewer bytes than it has",
+                                     "%s:%s %s(): `%s`: %s - the carry stops early, so the counter wraps after fewer records than 2^%d and "
+                                     "two records get the same MAC sequence number / nonce" % (fn.relfile, ln, fn.name, pp(nd)[:30], why, 8 * size),
+                                     file=fn.relfile, line=ln)
+                    res.instance(rid_, "%s:%s %s (%s)" % (fn.name, ln, pp(nd)[:24], why[:80]), ok, finding=f_)
+    res.floor(rid_, 6)
